@@ -12,6 +12,14 @@ package types
 //@ contract interface ClientKeeper.VerifyMembership
 //@   ensures err == nil ==> LCVerifiedMembership(clientID, height, delayTimePeriod, delayBlockPeriod, path, value)
 
+//@ spec func clientStateFound(w World, id string) bool
+
+//@ contract interface ClientKeeper.GetClientStatus
+//@   ensures result == clientStatus(world(ctx), clientID)
+
+//@ contract interface ClientKeeper.GetClientState
+//@   ensures result1 == clientStateFound(world(ctx), clientID)
+
 //@ contract interface ClientKeeper.VerifyNonMembership
 //@   ensures err == nil ==> LCVerifiedNonMembership(clientID, height, delayTimePeriod, delayBlockPeriod, path)
 
@@ -30,3 +38,49 @@ package types
 //@   lemma prefix_occurs_once: forall n int :: 0 <= n ==> !contains(substr("connection-" + dec(n), 1, len("connection-" + dec(n)) - 1), "connection-")
 //@   ensures roundtrip: forall n int :: 0 <= n && n < 18446744073709551616 && connectionID == "connection-" + dec(n) ==> err == nil && result0 == n
 //@   ensures parsed_suffix: err == nil ==> connectionID == "connection-" + rest && nth(strconv.ParseUint(rest, 10, 64), 1) == nil && result0 == nth(strconv.ParseUint(rest, 10, 64), 0)
+
+// ---- version negotiation (C13)
+
+//@ spec func inStrs(s []string, x string) bool = exists j int :: 0 <= j && j < len(s) && s[j] == x
+
+//@ contract GetFeatureSetIntersection
+//@   invariant #1 idx: 0 - 1 <= rangeindex && rangeindex < len(sourceFeatureSet) || (len(sourceFeatureSet) == 0 && rangeindex == 0 - 1)
+//@   invariant #1 sound: forall j int :: 0 <= j && j < len(featureSet) ==> inStrs(sourceFeatureSet, featureSet[j]) && inStrs(counterpartyFeatureSet, featureSet[j])
+//@   invariant #1 complete: forall i int :: 0 <= i && i <= rangeindex && inStrs(counterpartyFeatureSet, sourceFeatureSet[i]) ==> inStrs(featureSet, sourceFeatureSet[i])
+//@   ensures sound: forall j int :: 0 <= j && j < len(result) ==> inStrs(sourceFeatureSet, result[j]) && inStrs(counterpartyFeatureSet, result[j])
+//@   ensures complete: forall i int :: 0 <= i && i < len(sourceFeatureSet) && inStrs(counterpartyFeatureSet, sourceFeatureSet[i]) ==> inStrs(result, sourceFeatureSet[i])
+
+//@ contract FindSupportedVersion
+//@   invariant #1 idx: 0 - 1 <= rangeindex && rangeindex < len(supportedVersions) || (len(supportedVersions) == 0 && rangeindex == 0 - 1)
+//@   invariant #1 none_before: forall j int :: 0 <= j && j <= rangeindex ==> supportedVersions[j].GetIdentifier() != version.GetIdentifier()
+//@   ensures found_matches: result1 ==> exists j int :: 0 <= j && j < len(supportedVersions) && supportedVersions[j] == result0 && supportedVersions[j].GetIdentifier() == version.GetIdentifier()
+//@   ensures not_found_none: !result1 ==> result0 == nil && forall j int :: 0 <= j && j < len(supportedVersions) ==> supportedVersions[j].GetIdentifier() != version.GetIdentifier()
+
+//@ contract (Version).VerifyProposedVersion
+//@   invariant #1 idx: 0 - 1 <= rangeindex && rangeindex < len(proposedVersion.GetFeatures()) || (len(proposedVersion.GetFeatures()) == 0 && rangeindex == 0 - 1)
+//@   invariant #1 supported_so_far: forall j int :: 0 <= j && j <= rangeindex ==> inStrs(v.Features, proposedVersion.GetFeatures()[j])
+//@   ensures same_identifier: err == nil ==> proposedVersion.GetIdentifier() == v.Identifier
+//@   ensures features_supported: forall j int :: err == nil && 0 <= j && j < len(proposedVersion.GetFeatures()) ==> inStrs(v.Features, proposedVersion.GetFeatures()[j])
+//@   ensures empty_only_if_allowed: err == nil && len(proposedVersion.GetFeatures()) == 0 ==> allowNilFeatureSet[proposedVersion.GetIdentifier()]
+
+//@ spec func isIntersection(r []string, a []string, b []string) bool = (forall j int :: 0 <= j && j < len(r) ==> inStrs(a, r[j]) && inStrs(b, r[j])) && (forall i int :: 0 <= i && i < len(a) && inStrs(b, a[i]) ==> inStrs(r, a[i]))
+
+//@ contract IsSupportedVersion
+//@   pure
+//@   ensures supported: result ==> exists j int :: 0 <= j && j < len(supportedVersions) && supportedVersions[j].GetIdentifier() == proposedVersion.GetIdentifier() && (forall f int :: 0 <= f && f < len(proposedVersion.GetFeatures()) ==> inStrs(supportedVersions[j].GetFeatures(), proposedVersion.GetFeatures()[f])) && (len(proposedVersion.GetFeatures()) > 0 || allowNilFeatureSet[proposedVersion.GetIdentifier()])
+
+//@ contract PickVersion
+//@   pure
+//@   invariant #1 idx: 0 - 1 <= rangeindex && rangeindex < len(supportedVersions) || (len(supportedVersions) == 0 && rangeindex == 0 - 1)
+//@   ensures picked_from_both: err == nil ==> exists i int, j int :: 0 <= i && i < len(supportedVersions) && 0 <= j && j < len(counterpartyVersions) && supportedVersions[i].GetIdentifier() == result0.Identifier && counterpartyVersions[j].GetIdentifier() == result0.Identifier && isIntersection(result0.Features, supportedVersions[i].GetFeatures(), counterpartyVersions[j].GetFeatures())
+//@   ensures nonempty_or_allowed: err == nil ==> len(result0.Features) > 0 || allowNilFeatureSet[result0.Identifier]
+//@   ensures single_result: err == nil ==> result0 != nil
+//@   ensures failure_nil: err != nil ==> result0 == nil
+
+// ---- handshakes over the localhost client are refused by stateless validation (C13)
+
+//@ contract (MsgConnectionOpenInit).ValidateBasic
+//@   ensures localhost_refused: msg.ClientId == exported.LocalhostClientID ==> err != nil
+
+//@ contract (MsgConnectionOpenTry).ValidateBasic
+//@   ensures localhost_refused: msg.ClientId == exported.LocalhostClientID ==> err != nil
